@@ -83,6 +83,19 @@ CHECKS.update({
          "DESIGN.md §4 C18"),
 })
 
+CHECKS.update({
+ "C16": ("E1-choice-tree",
+         "bounded-exhaustive enumeration of doc-comment shapes x commentable positions x link targets compiled by the real compiler against a reference comment reader and the reference resolver",
+         "All overview line sequences up to the bound over a 27-form line alphabet (six indentation kinds incl. mixed-width Unicode, links at start/middle/end, blank and whitespace-only lines), block tags with inline/continuation messages in all orders, 32 link targets of every kind and scope distance from 11 positions, and a 16-form malformed catalogue alone and next to healthy sibling comments: the whole observed AST including comments must equal the model; malformed / ill-fitting / unresolvable give exactly warnings of the right lint, never an error, and never cost an element.",
+         "trusted: the reference comment reader in mc/src/model/doc.rs (written from the statement); CRLF carriage returns at line ends are normalised; @param on an enumerator is not judged",
+         "DESIGN.md §4 C16"),
+ "C17": ("E1-choice-tree",
+         "exhaustive enumeration of argument lists over real directory trees (files, links, cycles, unreadable entries) through compile_from_options against a reference file-set resolver",
+         "2^6 real directory trees (optional empty dir, file link, directory link, symlink cycle, dangling link, invalid UTF-8 file) x every sources/references argument list up to the bound over 11-18 path spellings per tree: compiled set, order, source priority, one DuplicateFile warning per repeat within a list and none across lists, I/O errors for missing / non-.slice / directory-as-source / unreadable and nothing parsed then.",
+         "trusted: the reference resolver in mc/src/props/c17.rs (identity = canonical path computed on the model tree); permission faults cannot be produced as root (invalid UTF-8 stands in); under a symlink cycle only lower bounds on warnings are checked; read_dir order is treated as unordered",
+         "DESIGN.md §4 C17"),
+})
+
 NOT_YET = {}
 
 def main():
